@@ -196,7 +196,7 @@ Proof.
   unfold maximize, spec_maximize.
   replace (s_is_some l && s_is_some s && s_is_some r) with (is_some l && is_some s && is_some r) by (destruct l, s, r; reflexivity).
   destruct (is_some l && is_some s && is_some r) eqn:Eall; [reflexivity|].
-  destruct l as [lb|]; [destruct s as [sb|]; destruct r as [rb|]; try discriminate|destruct s as [sb|]; destruct r as [rb|]].
+  destruct l as [lb|]; [destruct s as [sb|]; destruct r as [rb|]; try (cbn [is_some andb] in Eall; discriminate Eall)|destruct s as [sb|]; destruct r as [rb|]].
   - (* lang + script *)
     assert (W1 : wf_triple (Some lb) (Some sb) None = true) by exact W0.
     assert (W2 : wf_triple (Some lb) None None = true) by (unfold wf_triple; rewrite Wl; reflexivity).
@@ -260,3 +260,40 @@ Proof.
 Qed.
 
 End Cascade.
+
+(* ---- minimize against the dictionary reference (C08: the chosen form) ---- *)
+Lemma striple_eqb_triple a b : striple_eqb a b = triple_eqb a b.
+Proof. destruct a as [[a1 a2] a3], b as [[b1 b2] b3]. reflexivity. Qed.
+
+Theorem minimize_is_spec l s r : wf_triple l s r = true ->
+  minimize the_tables l s r = Ok (spec_minimize the_dict l s r).
+Proof.
+  intros W.
+  assert (FROM : forall ml ms mr, wf_triple (Some ml) (Some ms) (Some mr) = true ->
+     minimize_from the_tables (Some ml, Some ms, Some mr) =
+     Ok (let ok (t : striple) := match t with (a, b, c) =>
+                 match spec_maximize the_dict a b c with Some m => striple_eqb m (Some ml, Some ms, Some mr) | None => false end end in
+         if ok (Some ml, None, None) then Some (Some ml, None, None)
+         else if s_is_some (Some mr) && ok (Some ml, None, Some mr) then Some (Some ml, None, Some mr)
+         else if s_is_some (Some ms) && ok (Some ml, Some ms, None) then Some (Some ml, Some ms, None)
+         else None)).
+  { intros ml ms mr Wm. unfold wf_triple in Wm. apply andb_true_iff in Wm as [Wm Wr]. apply andb_true_iff in Wm as [Wl Ws].
+    assert (W1 : wf_triple (Some ml) None None = true) by (unfold wf_triple; rewrite Wl; reflexivity).
+    assert (W2 : wf_triple (Some ml) None (Some mr) = true) by (unfold wf_triple; rewrite Wl, Wr; reflexivity).
+    assert (W3 : wf_triple (Some ml) (Some ms) None = true) by (unfold wf_triple; rewrite Wl, Ws; reflexivity).
+    unfold minimize_from. cbn [is_some s_is_some andb].
+    rewrite (maximize_is_spec _ _ _ W1), (maximize_is_spec _ _ _ W2), (maximize_is_spec _ _ _ W3).
+    unfold trial_hit. cbn zeta. change striple_eqb with triple_eqb.
+    destruct (spec_maximize the_dict (Some ml) None None) as [t1|]; [destruct (triple_eqb t1 _); [reflexivity|]|];
+    (destruct (spec_maximize the_dict (Some ml) None (Some mr)) as [t2|]; [destruct (triple_eqb t2 _); [reflexivity|]|]);
+    (destruct (spec_maximize the_dict (Some ml) (Some ms) None) as [t3|]; [destruct (triple_eqb t3 _); reflexivity|reflexivity]). }
+  unfold minimize, spec_minimize.
+  replace (s_is_some l && s_is_some s && s_is_some r) with (is_some l && is_some s && is_some r) by (destruct l, s, r; reflexivity).
+  destruct (is_some l && is_some s && is_some r) eqn:Eall.
+  - destruct l as [ml|], s as [ms|], r as [mr|]; try (cbn [is_some andb] in Eall; discriminate Eall).
+    rewrite (FROM ml ms mr W). reflexivity.
+  - rewrite (maximize_is_spec _ _ _ W).
+    destruct (maximize_char the_tables data_full_extend data_wf_ints l s r W) as [E0|(ml & ms & mr & E0 & _ & _ & _ & _ & Wm)].
+    + rewrite (maximize_is_spec _ _ _ W) in E0. injection E0 as ->. reflexivity.
+    + rewrite (maximize_is_spec _ _ _ W) in E0. injection E0 as ->. rewrite (FROM ml ms mr Wm). reflexivity.
+Qed.
